@@ -824,6 +824,9 @@ func c17LSP(a *ChildArgs) {
 				pre := []string{"SELECT ", "  select\n   "}[v]
 				t := c17Text{S: pre + tr.text + []string{" FROM t\n", "\n\n  from t  \n"}[v], spans: []c17Span{{len(pre), len(pre) + len(tr.text), tr.kind}}, features: []string{tr.kind, fmt.Sprintf("tricky-%d", i)}}
 				run(t, fmt.Sprintf("catalogue/lexeme-%02d", i))
+				if strings.Contains(tr.text, "\n") {
+					run(c17ToCRLF(t), fmt.Sprintf("catalogue-crlf/lexeme-%02d", i))
+				}
 			}
 		}
 	}
@@ -845,6 +848,10 @@ func c17LSP(a *ChildArgs) {
 	}
 	for i := 0; i < a.N; i++ {
 		r := rand.New(rand.NewSource(base + int64(i)*15485863))
-		run(c17Build(r, true, mon.AvoidFeatures()), "random")
+		t := c17Build(r, true, mon.AvoidFeatures())
+		run(t, "random")
+		if i%3 == 1 {
+			run(c17ToCRLF(t), "random-crlf") // CR LF documents: line ends inside literals are content like any other byte
+		}
 	}
 }
